@@ -2,11 +2,14 @@ package router
 
 import (
 	"bytes"
+	"context"
 	"encoding/base64"
+	"errors"
 	"io"
 	"log"
 	"net"
 	"net/netip"
+	"sync"
 	"sync/atomic"
 	"time"
 
@@ -22,15 +25,42 @@ type fastHttpServer struct {
 	s      *fasthttp.Server
 	l      net.Listener
 	closed atomic.Bool
+
+	m     sync.Mutex
+	conns map[net.Conn]struct{} // open connections
 }
 
 // Close shuts down the server and closes its listener.
 func (s *fastHttpServer) Close() error {
 	s.closed.Store(true)
-	err := s.s.Shutdown()
+	// Shutdown waits until all connections are gone. A connection on which the
+	// client is silent counts as busy until its read timeout. Do not wait for
+	// them.
+	ctx, cancel := context.WithTimeout(context.Background(), time.Millisecond*100)
+	err := s.s.ShutdownWithContext(ctx)
+	cancel()
 	// Shutdown does nothing if Serve has not been called yet.
 	s.l.Close()
+	s.m.Lock()
+	for c := range s.conns {
+		c.Close()
+	}
+	s.m.Unlock()
+	if errors.Is(err, context.DeadlineExceeded) {
+		err = nil
+	}
 	return err
+}
+
+func (s *fastHttpServer) trackConnState(c net.Conn, state fasthttp.ConnState) {
+	s.m.Lock()
+	defer s.m.Unlock()
+	switch state {
+	case fasthttp.StateNew:
+		s.conns[c] = struct{}{}
+	case fasthttp.StateClosed, fasthttp.StateHijacked:
+		delete(s.conns, c)
+	}
 }
 
 func (r *router) startFastHttpServer(cfg *ServerConfig) (*fastHttpServer, error) {
@@ -67,7 +97,8 @@ func (r *router) startFastHttpServer(cfg *ServerConfig) (*fastHttpServer, error)
 		Logger:                       log.New(mlog.WriteToLogger(*h.logger, "redirected fasthttp log", "msg"), "", 0),
 	}
 
-	fs := &fastHttpServer{s: s, l: l}
+	fs := &fastHttpServer{s: s, l: l, conns: make(map[net.Conn]struct{})}
+	s.ConnState = fs.trackConnState
 	go func() {
 		defer l.Close()
 		err := s.Serve(l)
